@@ -55,6 +55,8 @@ def run(ctx: Ctx) -> None:
             (Scenario("gcf-damaged-list-garbage", [gc], damage=("list", "garbage"), **base), [0]),
             (Scenario("gcf-damaged-manifest-garbage", [gc], damage=("man", "garbage"), **base), [0]),
             (Scenario("gcf-damaged-manifest-missing", [gc], damage=("man", "missing"), **base), [0]),
+            (Scenario("gcf-damaged-list-jsonobject", [gc], damage=("list", "jsonobject"), **base), [0]),
+            (Scenario("gcf-damaged-manifest-emptyobject", [gc], damage=("man", "emptyobject"), **base), [0]),
         ]
         batches = []
         for scn, pauses in scns:
@@ -70,6 +72,12 @@ def run(ctx: Ctx) -> None:
                 for k in range(steps["g1"] + 1):
                     for kind in ("before", "escape"):
                         jobs.append(("list", head + [["g1", k], ["fault", "g1", kind, "oserror"]] + tail))
+                if pre == pauses[-1] and pre > 0:
+                    # the transaction has been stalled for longer than the grace period: its manifests and list are OLD and
+                    # in flight, only their markers protect them - also when a marker cannot be read or stat'ed
+                    jobs.append(("list", head + [["env", "lapse"]] + tail))
+                    for k in range(steps["g1"] + 1):
+                        jobs.append(("list", head + [["env", "lapse"], ["g1", k], ["fault", "g1", "before", "oserror"]] + tail))
             traces = l1.run_many(scn, jobs)
             for t in traces:
                 if t.get("harness_error"):
